@@ -95,7 +95,14 @@ impl Names {
     pub fn code_id(&self, slot: u32) -> u64 {
         match self.codes.get(slot as usize) {
             Some(id) => *id,
-            None => 900_000 + slot as u64,
+            // never stored: mostly a large unused id, sometimes the invalid id 0
+            None => {
+                if slot % 4 == 3 {
+                    0
+                } else {
+                    900_000 + slot as u64
+                }
+            }
         }
     }
 
